@@ -32,7 +32,7 @@ fn expect_u16(v: &Value, rows: usize, cols: usize, s: &[u8]) {
 #[cfg_attr(kani, kani::proof)]
 #[cfg_attr(kani, kani::unwind(9))]
 #[cfg_attr(kani, kani::stub(alloc::fmt::format, fmt_stub))]
-#[cfg_attr(kani, kani::stub(CompilerSourceRange::here, here_stub))]
+#[cfg_attr(kani, kani::stub(mech_core::CompilerSourceRange::here, here_stub))]
 pub(crate) fn vkc12_mat_convert_same_shape() {
   let (s, m) = src_2x3();
   vk::reach();
@@ -46,7 +46,7 @@ pub(crate) fn vkc12_mat_convert_same_shape() {
 #[cfg_attr(kani, kani::proof)]
 #[cfg_attr(kani, kani::unwind(9))]
 #[cfg_attr(kani, kani::stub(alloc::fmt::format, fmt_stub))]
-#[cfg_attr(kani, kani::stub(CompilerSourceRange::here, here_stub))]
+#[cfg_attr(kani, kani::stub(mech_core::CompilerSourceRange::here, here_stub))]
 pub(crate) fn vkc12_mat_reshape_3x2() {
   let (s, m) = src_2x3();
   vk::reach();
@@ -60,7 +60,7 @@ pub(crate) fn vkc12_mat_reshape_3x2() {
 #[cfg_attr(kani, kani::proof)]
 #[cfg_attr(kani, kani::unwind(9))]
 #[cfg_attr(kani, kani::stub(alloc::fmt::format, fmt_stub))]
-#[cfg_attr(kani, kani::stub(CompilerSourceRange::here, here_stub))]
+#[cfg_attr(kani, kani::stub(mech_core::CompilerSourceRange::here, here_stub))]
 pub(crate) fn vkc12_mat_reshape_1x6() {
   let (s, m) = src_2x3();
   vk::reach();
@@ -72,7 +72,7 @@ pub(crate) fn vkc12_mat_reshape_1x6() {
 #[cfg_attr(kani, kani::proof)]
 #[cfg_attr(kani, kani::unwind(9))]
 #[cfg_attr(kani, kani::stub(alloc::fmt::format, fmt_stub))]
-#[cfg_attr(kani, kani::stub(CompilerSourceRange::here, here_stub))]
+#[cfg_attr(kani, kani::stub(mech_core::CompilerSourceRange::here, here_stub))]
 pub(crate) fn vkc12_mat_reshape_6x1() {
   let (s, m) = src_2x3();
   vk::reach();
